@@ -1,13 +1,20 @@
-"""C19 - GSM time arithmetic. Model: Model/GsmTime.v; theorems: Props/C19.v.
-Tie: Gen/GsmTimeConst.v (GSM_MAX_FN as compiled, GSM_HYPERFRAME as imported) + correspondence of the
-extracted model with the real gsm_utils.c / l1s_time_inc (textually extracted from sync.c) / fn2gsm_time."""
+"""C19 - GSM time arithmetic. Models: Model/GsmTime.v (helpers), Model/GsmTimeRun.v (the firmware's running time and
+every call site of the arithmetic in firmware/layer1); theorems: Props/C19.v.
+Tie: Gen/GsmTimeConst.v (GSM_MAX_FN as compiled, GSM_HYPERFRAME as imported), Gen/GsmTimeSites.v (constants of
+synchronize_tdma as compiled + every call-site expression translated from the current source text, fail closed) and
+correspondence of the extracted model with (a) the real gsm_utils.c / l1s_time_inc / fn2gsm_time, (b) the REAL sync.c compiled
+whole on the host (l1_sync, synchronize_tdma), the verbatim l1s_decode_sb and re-initialisation statements of prim_fbsb.c and
+the pasted call-site expressions."""
 import os
+import re
 import subprocess
 
 from .. import common
 from ..common import REPO, LIBOSMO, ROOT, WORK
 
 H = 2715648
+L1 = os.path.join(REPO, "src/target/firmware/layer1")
+FWINC = os.path.join(REPO, "src/target/firmware/include")
 
 
 def build_c(ctx):
@@ -28,12 +35,448 @@ def py_hyperframe():
     return int(gsm_shared.GSM_HYPERFRAME)
 
 
+# ---------------------------------------------------------------------------------------------------------------------
+# call-site translator (small on purpose; every shape it does not know raises SiteError = the check fails closed)
+
+class SiteError(Exception):
+    pass
+
+
+def strip_comments(src):
+    """C comments and string literals blanked, every other character (and every newline) kept in place"""
+    out = []
+    i, n = 0, len(src)
+    while i < n:
+        c = src[i]
+        if src.startswith("/*", i):
+            j = src.find("*/", i + 2)
+            j = n if j < 0 else j + 2
+            out.append("".join(ch if ch == "\n" else " " for ch in src[i:j]))
+            i = j
+        elif src.startswith("//", i):
+            j = src.find("\n", i)
+            j = n if j < 0 else j
+            out.append(" " * (j - i))
+            i = j
+        elif c == '"' or c == "'":
+            j = i + 1
+            while j < n and src[j] != c:
+                j += 2 if src[j] == "\\" else 1
+            out.append(c + " " * (j - i - 1) + c)
+            i = j + 1
+        else:
+            out.append(c)
+            i += 1
+    return "".join(out)
+
+
+def call_args(src, pos):
+    """src[pos] == '(' -> (list of top-level argument texts, index after the closing parenthesis)"""
+    depth, args, start = 0, [], pos + 1
+    for j in range(pos, len(src)):
+        c = src[j]
+        if c in "([":
+            depth += 1
+        elif c in ")]":
+            depth -= 1
+            if depth == 0:
+                args.append(src[start:j].strip())
+                return args, j + 1
+        elif c == "," and depth == 1:
+            args.append(src[start:j].strip())
+            start = j + 1
+    raise SiteError("unbalanced call")
+
+
+TOK = re.compile(r"\s*(?:(0[xX][0-9a-fA-F]+|\d+)([uUlL]*)|([A-Za-z_][A-Za-z_0-9]*(?:(?:\.|->)[A-Za-z_][A-Za-z_0-9]*)*)|(>=|<=|==|!=|[-+*/%()<>]))")
+
+# C type lattice used here: 'int' (32 bit signed, only constants and promoted narrow variables), 'u32'
+class Node:
+    def __init__(self, coq, ty, const=None, nonneg=False):
+        self.coq, self.ty, self.const, self.nonneg = coq, ty, const, nonneg
+
+
+class Translator:
+    """expression / statement text -> Coq term over Z; variables: name -> (coq name, C type)"""
+
+    def __init__(self, variables, macros):
+        self.vars = variables
+        self.macros = macros          # callable name -> (value, ctype) or raises SiteError
+        self.used_macros = {}
+
+    def tokenize(self, text):
+        toks, i = [], 0
+        text = text.strip()
+        while i < len(text):
+            m = TOK.match(text, i)
+            if not m or m.end() == i:
+                raise SiteError("cannot tokenise %r at %r" % (text, text[i:i + 12]))
+            if m.group(1) is not None:
+                toks.append(("num", int(m.group(1), 0), m.group(2).lower()))
+            elif m.group(3) is not None:
+                toks.append(("id", m.group(3)))
+            else:
+                toks.append(("op", m.group(4)))
+            i = m.end()
+            while i < len(text) and text[i].isspace():
+                i += 1
+        return toks
+
+    # --- typing helpers
+    @staticmethod
+    def lit(v):
+        return str(v) if v >= 0 else "(%d)" % v
+
+    def to_u32(self, n):
+        if n.ty == "u32":
+            return n
+        if n.const is not None:
+            v = n.const % (1 << 32)
+            return Node(self.lit(v), "u32", v, True)
+        if n.nonneg:
+            return Node(n.coq, "u32", None, True)
+        return Node("(w32 %s)" % n.coq, "u32", None, True)
+
+    def binop(self, op, a, b):
+        if a.ty == "int" and b.ty == "int":
+            if a.const is None or b.const is None:
+                raise SiteError("signed arithmetic on variables (%s %s %s) is not supported" % (a.coq, op, b.coq))
+            if op in "/%" and b.const == 0:
+                raise SiteError("division by zero")
+            x, y = a.const, b.const
+            q = abs(x) // abs(y) * (1 if (x < 0) == (y < 0) else -1) if op in "/%" else 0
+            v = {"+": x + y, "-": x - y, "*": x * y, "/": q, "%": x - q * y if op == "%" else 0}[op]
+            if not -(1 << 31) <= v < (1 << 31):
+                raise SiteError("constant expression overflows int")
+            return Node(self.lit(v), "int", v, v >= 0)
+        a, b = self.to_u32(a), self.to_u32(b)
+        if op in "+-*":
+            return Node("(w32 (%s %s %s))" % (a.coq, op, b.coq), "u32", None, True)
+        if b.const == 0:
+            raise SiteError("division by zero")
+        if b.const is None:
+            raise SiteError("division by a variable is not supported")
+        return Node("(%s %s %s)" % ("Z.quot" if op == "/" else "Z.rem", a.coq, b.coq), "u32", None, True)
+
+    # --- recursive descent: expr := term (('+'|'-') term)* ; term := atom (('*'|'/'|'%') atom)*
+    def parse_expr(self, toks, i):
+        a, i = self.parse_term(toks, i)
+        while i < len(toks) and toks[i] in (("op", "+"), ("op", "-")):
+            b, j = self.parse_term(toks, i + 1)
+            a, i = self.binop(toks[i][1], a, b), j
+        return a, i
+
+    def parse_term(self, toks, i):
+        a, i = self.parse_atom(toks, i)
+        while i < len(toks) and toks[i] in (("op", "*"), ("op", "/"), ("op", "%")):
+            b, j = self.parse_atom(toks, i + 1)
+            a, i = self.binop(toks[i][1], a, b), j
+        return a, i
+
+    def parse_atom(self, toks, i):
+        if i >= len(toks):
+            raise SiteError("unexpected end of expression")
+        t = toks[i]
+        if t[0] == "num":
+            if "u" in t[2]:
+                if t[1] >= 1 << 32:
+                    raise SiteError("literal too wide")
+                return Node(self.lit(t[1]), "u32", t[1], True), i + 1
+            if t[1] >= 1 << 31:
+                raise SiteError("literal does not fit int")
+            return Node(self.lit(t[1]), "int", t[1], True), i + 1
+        if t[0] == "id":
+            name = t[1]
+            if name in self.vars:
+                coq, ty = self.vars[name]
+                if ty == "u32":
+                    return Node(coq, "u32", None, True), i + 1
+                if ty == "u16":           # promoted to int, value 0..65535
+                    return Node(coq, "int", None, True), i + 1
+                if ty == "i32":
+                    return Node(coq, "int", None, False), i + 1
+                raise SiteError("variable type " + ty)
+            val, ty = self.macros(name)
+            self.used_macros[name] = val
+            return Node(self.lit(val), ty, val, val >= 0), i + 1
+        if t == ("op", "("):
+            a, j = self.parse_expr(toks, i + 1)
+            if j >= len(toks) or toks[j] != ("op", ")"):
+                raise SiteError("missing )")
+            return Node(a.coq, a.ty, a.const, a.nonneg), j + 1
+        if t == ("op", "-"):
+            a, j = self.parse_atom(toks, i + 1)
+            return self.binop("-", Node("0", "int", 0, True), a), j
+        raise SiteError("unexpected token %r" % (t,))
+
+    def expr(self, text):
+        toks = self.tokenize(text)
+        a, i = self.parse_expr(toks, 0)
+        if i != len(toks):
+            raise SiteError("trailing tokens in %r" % text)
+        return a
+
+    def cond(self, text):
+        toks = self.tokenize(text)
+        a, i = self.parse_expr(toks, 0)
+        if i >= len(toks) or toks[i][0] != "op" or toks[i][1] not in (">=", "<=", "<", ">", "==", "!="):
+            raise SiteError("condition shape %r" % text)
+        op = toks[i][1]
+        b, j = self.parse_expr(toks, i + 1)
+        if j != len(toks):
+            raise SiteError("trailing tokens in condition %r" % text)
+        if not (a.ty == "int" and b.ty == "int"):
+            a, b = self.to_u32(a), self.to_u32(b)
+        elif a.const is None or b.const is None:
+            pass   # int compare of promoted values: mathematical compare is exact
+        fmt = {">=": "(%s >=? %s)", "<=": "(%s <=? %s)", "<": "(%s <? %s)", ">": "(%s >? %s)", "==": "(%s =? %s)", "!=": "(negb (%s =? %s))"}[op]
+        return fmt % (a.coq, b.coq)
+
+    STMT = re.compile(r"\s*([A-Za-z_]\w*)\s*([-+*/%]?)=(?!=)\s*([^;]*);\s*")
+    IFST = re.compile(r"\s*if\s*\(([^()]*(?:\([^()]*\)[^()]*)*)\)\s*")
+
+    def stmts(self, text, result):
+        """sequence of  v = E; | v op= E; | if (C) <one such statement>  -> Coq term: value of `result` at the end"""
+        lets, i = [], 0
+        while i < len(text):
+            if not text[i:].strip():
+                break
+            m = self.IFST.match(text, i)
+            c = None
+            if m:
+                c = self.cond(m.group(1))
+                i = m.end()
+            m = self.STMT.match(text, i)
+            if not m:
+                raise SiteError("statement shape %r" % text[i:i + 40])
+            v, op, e = m.group(1), m.group(2), m.group(3)
+            if v not in self.vars or self.vars[v][1] != "u32":
+                raise SiteError("assignment to %s" % v)
+            rhs = self.expr("(%s) %s (%s)" % (v, op, e) if op else e)
+            rhs = self.to_u32(rhs)
+            coqv = self.vars[v][0]
+            lets.append("let %s := %s in" % (coqv, rhs.coq if c is None else "(if %s then %s else %s)" % (c, rhs.coq, coqv)))
+            i = m.end()
+        return " ".join(lets) + " " + self.vars[result][0]
+
+
+def macro_resolver(ctx, cfile_text):
+    """identifier -> (value, 'int'|'u32'): a #define of the same .c file (pasted verbatim) or of the headers, evaluated by the compiler"""
+    cache = {}
+
+    def resolve(name):
+        if name in cache:
+            return cache[name]
+        if not re.fullmatch(r"[A-Z_][A-Z_0-9]*", name):
+            raise SiteError("unknown identifier %s" % name)
+        local = re.findall(r"^[ \t]*#[ \t]*define[ \t]+%s\b[^\n]*$" % re.escape(name), cfile_text, re.M)
+        d = os.path.join(WORK, "c")
+        os.makedirs(d, exist_ok=True)
+        p = os.path.join(d, "c19_macro_%s.c" % name)
+        with open(p, "w") as f:
+            f.write("#include <stdio.h>\n#include <stdint.h>\n#include <osmocom/gsm/gsm_utils.h>\n#include <calypso/tpu.h>\n%s\n"
+                    "int main(void){ printf(\"%%lld %%d %%d\\n\", (long long)(%s), (int)sizeof(%s), ((__typeof__(%s))-1) < 0); return 0; }\n"
+                    % ("\n".join(local), name, name, name))
+        ok, binp, log = common.cc("c19_macro_" + name, [p], flags="-I%s/include -idirafter %s" % (LIBOSMO, FWINC), sanitize=False)
+        if not ok:
+            raise SiteError("identifier %s is not a compile-time constant of the known headers" % name)
+        val, size, signed = [int(x) for x in subprocess.run([binp], stdout=subprocess.PIPE, text=True, timeout=20).stdout.split()]
+        if size != 4:
+            raise SiteError("macro %s has a %d-byte type" % (name, size))
+        cache[name] = (val, "int" if signed else "u32")
+        return cache[name]
+    return resolve
+
+
+# the call sites the Coq development has theorems for, in the order the harness and Model/GsmTimeRun.site_eval use
+EXPECTED_SITES = ["prim_tch_1", "prim_tch_2", "prim_rx_nb_1", "prim_rx_nb_2", "prim_fbsb_1", "prim_rach_1", "prim_freq_1"]
+# calls that are covered by executing / modelling the whole enclosing function instead of a site expression:
+# file -> {callee: number of calls}
+WHOLE_FUNCTION_CALLS = {
+    "sync.c": {"l1s_time_inc": 3, "gsm_fn2gsmtime": 1},      # synchronize_tdma x2, l1_sync x1; gsm_fn2gsmtime inside l1s_time_inc
+    "prim_fbsb.c": {"l1s_time_inc": 1, "gsm_gsmtime2fn": 1},  # l1s_sbdet_resp re-initialisation; l1s_decode_sb
+}
+FN_VARS = {"l1s.current_time.fn": "l1s.current_time.fn", "fbs.mon.time.fn": "fbs.mon.time.fn"}
+
+
+def coq_comment(s):
+    return re.sub(r"\s+", " ", s).replace("(*", "( *").replace("*)", "* )")
+
+
+def discover_sites(ctx):
+    """-> (sites, problems). site = dict(name, file, line, kind, text, coq, cfun, var, aux)"""
+    sites, problems = [], []
+    for fname in sorted(os.listdir(L1)):
+        if not fname.endswith(".c"):
+            continue
+        with open(os.path.join(L1, fname)) as f:
+            raw = f.read()
+        src = strip_comments(raw)
+        base = fname[:-2]
+        macros = macro_resolver(ctx, raw)
+        try:
+            inc_body = strip_comments(common.c_function_text(os.path.join(L1, fname), "l1s_time_inc")) if fname == "sync.c" else None
+        except RuntimeError:
+            inc_body = None
+        inc_span = (src.find(inc_body), src.find(inc_body) + len(inc_body)) if inc_body and src.find(inc_body) >= 0 else (-1, -1)
+        counts = {"l1s_time_inc": 0, "gsm_fn2gsmtime": 0, "gsm_gsmtime2fn": 0}
+        ordinal = 0
+        for m in re.finditer(r"\b(l1s_time_inc|gsm_fn2gsmtime|gsm_gsmtime2fn)\s*\(", src):
+            callee = m.group(1)
+            line = src.count("\n", 0, m.start()) + 1
+            # the definition of l1s_time_inc itself
+            if re.match(r"[^\n;{}]*\bvoid\s+$", src[src.rfind("\n", 0, m.start()) + 1:m.start()]):
+                continue
+            inside_inc = inc_span[0] <= m.start() < inc_span[1]
+            if callee != "gsm_fn2gsmtime" or inside_inc:
+                counts[callee] += 1
+                continue
+            ordinal += 1
+            name = "%s_%d" % (base, ordinal)
+            try:
+                args, _ = call_args(src, m.end() - 1)
+                if len(args) != 2:
+                    raise SiteError("gsm_fn2gsmtime with %d arguments" % len(args))
+                text = args[1]
+                var = [v for v in FN_VARS if v in text]
+                if len(var) != 1:
+                    raise SiteError("argument %r does not mention exactly one known frame-number variable" % text)
+                tr = Translator({var[0]: ("v", "u32")}, macros)
+                node = tr.to_u32(tr.expr(text))
+                defines = "".join(d + "\n" for mac in tr.used_macros for d in re.findall(r"^[ \t]*#[ \t]*define[ \t]+%s\b[^\n]*$" % mac, raw, re.M))
+                sites.append(dict(name=name, file=fname, line=line, kind="argument of gsm_fn2gsmtime", text=text, coq=node.coq, var=var[0],
+                                  defines=defines, cbody="%s = v; return (uint32_t)(%s);" % (var[0], text), aux=None))
+            except SiteError as e:
+                problems.append("%s:%d call site %s: %s" % (fname, line, name, e))
+        exp = WHOLE_FUNCTION_CALLS.get(fname, {})
+        for callee, cnt in counts.items():
+            if cnt != exp.get(callee, 0):
+                problems.append("%s: %d call(s) of %s outside the known site expressions, the model covers %d" % (fname, cnt, callee, exp.get(callee, 0)))
+    # statement sites (frame numbers handed to the gsmtime scheduler)
+    for name, fname, func, rx, variables, decls, result, aux in (
+        ("prim_rach_1", "prim_rach.c", "l1a_rach_req",
+         r"else\s+(fn_sched\s*=[^;]*;)(?:\s*l1s\.rach\.\w+\s*=\s*\w+\s*;)*\s*(fn_sched\s*[-+*/%]?=[^;]*;)\s*sched_gsmtime\s*\(",
+         {"l1s.current_time.fn": ("v", "u32"), "offset": ("offset", "u16"), "fn_sched": ("fn_sched", "u32")},
+         [r"uint16_t\s+offset\b", r"uint32_t\s+fn_sched\b"], "fn_sched", ("offset", "uint16_t", "let offset := aux mod 65536 in")),
+        ("prim_freq_1", "prim_freq.c", "l1a_freq_req",
+         r"(fn_sched\s*=\s*l1s\.current_time\.fn[^;]*;)\s*(if\s*\([^;{}]*\)\s*fn_sched\s*[-+*/%]?=[^;]*;)\s*printf\s*\(",
+         {"l1s.current_time.fn": ("v", "u32"), "diff": ("diff", "i32"), "fn_sched": ("fn_sched", "u32")},
+         [r"int32_t\s+diff\b", r"uint32_t\s+fn_sched\b"], "fn_sched", ("diff", "int32_t", "let diff := aux in")),
+    ):
+        path = os.path.join(L1, fname)
+        try:
+            with open(path) as f:
+                raw = f.read()
+            try:
+                body = strip_comments(common.c_function_text(path, func))
+            except RuntimeError as e:
+                raise SiteError(str(e))
+            ms = list(re.finditer(rx, body))
+            if len(ms) != 1:
+                raise SiteError("expected exactly one statement group in %s(), found %d" % (func, len(ms)))
+            for d in decls:
+                if not re.search(d, body):
+                    raise SiteError("declaration /%s/ not found in %s()" % (d, func))
+            text = " ".join(g.strip() for g in ms[0].groups())
+            tr = Translator(variables, macro_resolver(ctx, raw))
+            coq = aux[2] + " " + tr.stmts(text, result)
+            sraw = strip_comments(raw)
+            line = sraw.count("\n", 0, max(sraw.find(body), 0) + ms[0].start(1)) + 1
+            sites.append(dict(name=name, file=fname, line=line, kind="frame number handed to sched_gsmtime", text=text, coq=coq, var="l1s.current_time.fn",
+                              defines="", cbody="%s %s = (%s)aux; uint32_t fn_sched = 0; l1s.current_time.fn = v; %s return fn_sched;" % (aux[1], aux[0], aux[1], text), aux=aux[0]))
+        except (SiteError, OSError) as e:
+            problems.append("%s call site %s: %s" % (fname, name, e))
+    names = [s["name"] for s in sites]
+    for n in EXPECTED_SITES:
+        if n not in names:
+            problems.append("call site %s was not found in the source (the theorems about it have no object)" % n)
+    for n in names:
+        if n not in EXPECTED_SITES:
+            problems.append("call site %s (%s:%d, %s) is new: no theorem covers it" % (n, *[(s["file"], s["line"], s["text"]) for s in sites if s["name"] == n][0]))
+    sites.sort(key=lambda s: (EXPECTED_SITES.index(s["name"]) if s["name"] in EXPECTED_SITES else len(EXPECTED_SITES), s["name"]))
+    return sites, problems
+
+
+def fbsb_reinit_text():
+    """the statements of l1s_sbdet_resp() that re-initialise the two times (verbatim), fail closed"""
+    path = os.path.join(L1, "prim_fbsb.c")
+    body = strip_comments(common.c_function_text(path, "l1s_sbdet_resp"))
+    m = re.search(r"synchronize_tdma\s*\([^;]*;\s*((?:[^;{}]*\b(?:current_time|next_time)\b[^;{}]*;\s*)+)", body)
+    if not m:
+        raise SiteError("re-initialisation statements of l1s_sbdet_resp() not found")
+    txt = m.group(1).strip()
+    n = len(re.findall(r";", txt))
+    if n != 3:
+        raise SiteError("l1s_sbdet_resp() re-initialises the time with %d statements, the model has 3: %r" % (n, txt))
+    return txt
+
+
+def build_run(ctx):
+    """Gen/GsmTimeSites.v + the harness around the real sync.c. Returns (binary or None, sites, problems)"""
+    problems = []
+    sites, p = discover_sites(ctx)
+    problems += p
+    d = os.path.join(WORK, "c")
+    os.makedirs(d, exist_ok=True)
+    with open(os.path.join(L1, "prim_fbsb.c")) as f:
+        fbsb_raw = f.read()
+    inc = ["/* GENERATED by vp/props/C19.py from %s - do not edit */" % L1]
+    seen_def = set()
+    for dline in re.findall(r"^[ \t]*#[ \t]*define[ \t]+SB2_LATENCY\b[^\n]*$", fbsb_raw, re.M) + [x for s in sites for x in s["defines"].split("\n") if x.strip()]:
+        if dline not in seen_def:
+            seen_def.add(dline)
+            inc.append(dline)
+    inc.append("static struct { struct { struct gsm_time time; } mon; } fbs;")
+    try:
+        inc.append(common.c_function_text(os.path.join(L1, "prim_fbsb.c"), "l1s_decode_sb"))
+    except RuntimeError as e:
+        problems.append(str(e))
+    try:
+        inc.append("static void c19_fbsb_reinit(void)\n{\n\t%s\n}" % fbsb_reinit_text())
+    except (SiteError, RuntimeError) as e:
+        problems.append(str(e))
+    for k, s in enumerate(sites):
+        inc.append("/* %s:%d */\nstatic uint32_t c19_site_%d(uint32_t v, long aux) { (void)aux; %s }" % (s["file"], s["line"], k, s["cbody"]))
+    inc.append("static const struct { const char *name; uint32_t (*f)(uint32_t, long); } c19_sites[] = {\n%s\n\t{ 0, 0 } };"
+               % "\n".join('\t{ "%s", c19_site_%d },' % (s["name"], k) for k, s in enumerate(sites)))
+    common.write_if_changed(os.path.join(d, "c19_gen.inc"), "\n".join(inc) + "\n")
+    stubs = os.path.join(ROOT, "charness/stubs")
+    ok, path, log = common.cc("c19_run", [os.path.join(ROOT, "charness/c19_run.c"), os.path.join(LIBOSMO, "src/gsm/gsm_utils.c")],
+                              flags="-ffunction-sections -fdata-sections -Wl,--gc-sections -D__ASM_ARM_SYSTEM_H -include %s/c19/host_stubs.h "
+                                    "-I%s/a/b -I%s -I%s -I%s/include -I%s/include -I%s -idirafter %s"
+                                    % (stubs, stubs, stubs, L1, LIBOSMO, REPO, d, FWINC))
+    consts = None
+    if not ok:
+        problems.append("harness around the real sync.c does not compile:\n" + log[-2500:])
+        path = None
+    else:
+        consts = [int(x) for x in subprocess.run([path, "const"], stdout=subprocess.PIPE, text=True, timeout=30).stdout.split()]
+    txt = common.gen_header("firmware layer1: QBITS_PER_TDMA / SWITCH_TIME / SB2_LATENCY and struct widths as compiled with the real sync.c, "
+                            "call-site expressions translated from the source text of prim_tch.c prim_rx_nb.c prim_fbsb.c prim_rach.c prim_freq.c")
+    txt += "Definition w32 (x : Z) : Z := x mod 4294967296.\n"
+    if consts:
+        txt += "Definition c_QBITS_PER_TDMA : Z := %d.\nDefinition c_SWITCH_TIME : Z := %d.\nDefinition c_SB2_LATENCY : Z := %d.\n" % tuple(consts[1:4])
+        txt += ("(* sizeof fn t1 t2 t3 tc of struct gsm_time; sizeof cinfo->fn_offset, its signedness; sizeof cinfo->time_alignment, l1s.tpu_offset *)\n"
+                "Definition c_widths : list Z := %s.\n" % common.zlist(consts[4:]))
+        if consts[0] != H:
+            problems.append("GSM_MAX_FN compiled into sync.c is %d" % consts[0])
+    for s in sites:
+        txt += "\n(* %s:%d  %s:  %s *)\nDefinition site_%s (v aux : Z) : Z := %s.\n" % (s["file"], s["line"], s["kind"], coq_comment(s["text"]), s["name"], s["coq"])
+    ctx.gen("GsmTimeSites", txt)
+    return path, sites, problems
+
+
 def gen(ctx):
     binp = build_c(ctx)
     c_max = int(subprocess.run([binp, "const"], stdout=subprocess.PIPE, text=True, timeout=30).stdout.strip())
     txt = common.gen_header("gsm_utils.h GSM_MAX_FN (as compiled), gsm_shared.GSM_HYPERFRAME (as imported)")
     txt += "Definition c_GSM_MAX_FN : Z := %d.\nDefinition py_GSM_HYPERFRAME : Z := %d.\n" % (c_max, py_hyperframe())
     ctx.gen("GsmTimeConst", txt)
+    # second Gen file (only C19 uses it); other properties that call gen() for GsmTimeConst are not affected by a failure here
+    try:
+        ctx.c19_run = build_run(ctx)
+    except Exception as e:  # noqa - reported by run()
+        ctx.c19_run = (None, [], ["Gen/GsmTimeSites.v could not be produced: %s: %s" % (type(e).__name__, e)])
     return binp
 
 
@@ -50,6 +493,304 @@ def fn_pool(rng, n):
     while len(out) < n:
         out.append(rng.below(H))
     return out[:max(n, len(pts))]
+
+
+def decomp(fn):
+    return [fn, fn // 1326, fn % 26, fn % 51, (fn // 51) % 8]
+
+
+# ---------------------------------------------------------------------------------------------------------------------
+# second part: the running time
+
+SITE_INTENT = {   # site -> (k as a function of aux, aux values, what)
+    "prim_tch_1": (lambda a: -1, [0], "the frame before the current one"),
+    "prim_tch_2": (lambda a: -1, [0], "the frame before the current one"),
+    "prim_rx_nb_1": (lambda a: -1, [0], "the frame before the current one"),
+    "prim_rx_nb_2": (lambda a: -4, [0], "four frames before the current one"),
+    "prim_fbsb_1": (None, [0], "SB2_LATENCY frames after the frame of the synchronisation burst"),
+    "prim_rach_1": (lambda a: a, [0, 3, 30, 217, 65535], "offset frames after the current one"),
+    "prim_freq_1": (lambda a: a, [0, 1, 6, 32023, 42431], "diff frames after the current one"),
+}
+
+
+def sb_word(t1, t2, t3p, bsic=0):
+    """the 25 information bits of a synchronisation burst as the DSP delivers them (inverse of l1s_decode_sb, TS 05.02 3.3.2.2.1)"""
+    sb = (bsic & 0x3f) << 2
+    sb |= ((t1 >> 9) & 3) | (((t1 >> 1) & 0xff) << 8) | ((t1 & 1) << 23)
+    sb |= (t2 & 0x1f) << 18
+    sb |= ((t3p >> 1) & 3) << 16 | (t3p & 1) << 24
+    return sb
+
+
+def sync_cases(rng, tier):
+    """histories: flat op streams for w_c19_run"""
+    hs = []
+    offs = [0, 1, 2, 3, 26, 51, 52, 1326, H - 1, H, 12, 100]
+    tas = [0, 1, 4914, 4915, 4916, 4925, 4999, 5000, 9915, 123456789, 4294967295 - 75, 4294967295]
+
+    def place(fn):       # put the running time on frame fn through the re-initialisation (fn - SB2 may be "negative": use raw then)
+        return [4] + decomp(fn) + decomp((fn + 1) % H) + [rng.choice([0, 0, 4915, 4989, 4990, 2500])]
+
+    # 1. boot, then single interrupts (every state visible)
+    hs.append([0, 1] * 8)
+    # 2. free runs across the wrap, single steps near it
+    for back in (1, 2, 3, 30):
+        hs.append(place(H - back) + [0, 1] * (back + 3))
+    hs.append(place(H - 3000) + [0, 2990] + [0, 1] * 20 + [0, 3000])
+    # 3. every offset x both tpu branches x landing points around the wrap / superframe / multiframe carries
+    for fo in offs:
+        for ta in tas:
+            for land in (H - 1, 0, 1, 1325, 1326, 51 * 26 - 1, H // 2):
+                # choose the start so that start + fo - 1 (+1) lands on `land` in the no-compensation branch
+                start = (land - (fo - 1)) % H
+                if fo == 0 and start == 0:
+                    continue   # fn_offset 0 at frame 0 is the recorded out-of-range case, generated separately
+                hs.append(place(start) + [1, fo, ta, 0, 1, 0, 1])
+                start2 = (land - fo) % H
+                hs.append(place(start2) + [1, fo, ta, 0, 1])
+    # 3b. re-initialisation from burst frame numbers around the carries and just below the end of the hyperframe
+    for m in (0, 1, 48, 49, 1323, 1324, 1325, H - 12, H - 10, H - 5, H - 4, H - 3):
+        hs.append([0, 3, 2, m, 0, 1, 0, 1, 0, 1])
+    for t1 in (0, 1, 2047):
+        for t2 in (0, 25):
+            for t3p in range(5):
+                hs.append([3, sb_word(t1, t2, t3p, 63), 0, 1, 0, 1])
+    # 4. random histories
+    nrand = 150 if tier == "quick" else 6000
+    for _ in range(nrand):
+        h = []
+        if rng.chance(3, 4):
+            h += place(rng.choice([rng.below(H), H - 1 - rng.below(40), rng.below(40), 1326 * rng.below(2048) + rng.choice([0, 1, 1325])]))
+        for _ in range(rng.range(1, 12)):
+            r = rng.below(10)
+            if r < 4:
+                h += [0, rng.choice([1, 1, 1, 2, 5, 51, 104, 1326, rng.below(3000)])]
+            elif r < 7:
+                h += [1, rng.choice(offs + [rng.range(1, 4000)]), rng.choice(tas + [rng.below(5000)])]
+            elif r < 8:
+                h += [2, rng.choice([rng.below(H - 2), H - 3, H - 12, 0, 1324])]
+            elif r < 9:
+                t1, t2, t3p = rng.choice([0, 1, 2046, 2047, rng.below(2048)]), rng.below(26), rng.below(5)
+                h += [3, sb_word(t1, t2, t3p, rng.below(64))]
+            else:
+                h += place(rng.below(H))
+        hs.append(h)
+    # 5. out-of-range arguments (the model is compared, the property oracle does not apply): negative / huge offsets, arbitrary components
+    for fo, start in ((0, 0), (-1, 0), (-5, 3), (-5, 5), (0, 1), (H + 1, 5), (H + 1, H - 1), (2 * H, 7), (2147483647, 0), (-2147483647, H - 1), (-2147483647, 0)):
+        hs.append(place(start) + [1, fo, 0, 0, 1])
+        hs.append(place(start) + [1, fo, 4915, 0, 1])
+    for _ in range(40 if tier == "quick" else 1500):
+        hs.append([4, rng.below(1 << 32), rng.below(65536), rng.below(256), rng.below(256), rng.below(256),
+                   rng.below(1 << 32), rng.below(65536), rng.below(256), rng.below(256), rng.below(256), rng.below(1 << 32)]
+                  + rng.choice([[0, rng.below(60)], [1, rng.range(-3, 3000), rng.below(5000)], [0, 1, 0, 1]]))
+        hs.append([3, rng.below(1 << 32), 0, 2])
+        hs.append([3, sb_word(2047, rng.below(32), rng.below(8), rng.below(64)), 0, 2])
+        hs.append([2, rng.choice([H - 2, H - 1, H, rng.below(1 << 32), 4294967295, 4294967294])])
+    hs.append([0, 5, 3, sb_word(2047, 20, 7), 0, 1, 0, 1])     # a burst word outside the coding: decoded frame number 2715668
+    # 6. malformed streams
+    hs += [[5], [0], [0, -1], [0, 100001], [1, 1], [1, 2147483648, 0], [1, 0, 4294967296], [2], [2, -1], [3, 4294967296], [4, 1, 2, 3],
+           [4, 0, 65536, 0, 0, 0, 0, 0, 0, 0, 0, 0], [0, 1, 7, 7], [4, 0, 0, 256, 0, 0, 0, 0, 0, 0, 0, 0]]
+    return hs
+
+
+def split_ops(h):
+    ops, i = [], 0
+    n = {0: 2, 1: 3, 2: 2, 3: 2, 4: 12}
+    while i < len(h):
+        ops.append(h[i:i + n[h[i]]])
+        i += n[h[i]]
+    return ops
+
+
+def time_ok(cur, nxt):
+    return cur == decomp(cur[0]) and nxt == decomp(nxt[0]) and cur[0] < H and nxt[0] < H and nxt[0] == (cur[0] + 1) % H
+
+
+def ofail(ctx, what, case, key, expected=None, observed=None, cap=6):
+    """oracle_fail, but at most `cap` full reports per key (the rest is only counted) so that one defect cannot crowd out the others"""
+    seen = ctx.__dict__.setdefault("c19_reported", {})
+    seen[key] = seen.get(key, 0) + 1
+    if seen[key] <= cap:
+        ctx.oracle_fail(what, case, key=key, expected=expected, observed=observed)
+    else:
+        ctx.count("oracle_fail:" + key)
+
+
+def run_oracle(ctx, h, obs, consts):
+    """the property stated directly on the observations of the real functions (independent of the Coq model)"""
+    qbits, switch, sb2 = consts
+    cur, nxt, tpu = [0] * 5, [0] * 5, 0            # .bss
+    pos = 0
+    for k, o in enumerate(split_ops(h)):
+        ncur, nnxt, ntpu, extra = obs[pos:pos + 5], obs[pos + 5:pos + 10], obs[pos + 10], obs[pos + 11]
+        pos += 12
+        pre_ok = time_ok(cur, nxt)
+        case = dict(history=h, op_index=k, op=o, before=dict(current_time=cur, next_time=nxt, tpu_offset=tpu))
+        seen = dict(current_time=ncur, next_time=nnxt)
+        if o[0] == 0:
+            if pre_ok and o[1] >= 1:
+                e = (cur[0] + o[1]) % H
+                if ncur != decomp(e) or nnxt != decomp((e + 1) % H):
+                    ofail(ctx, "after %d frame interrupt(s) the running time is not frame (old + n) mod 2715648 / its successor" % o[1], case,
+                                    key="c19-run-irq", expected=dict(current_time=decomp(e), next_time=decomp((e + 1) % H)), observed=seen)
+                ctx.nontrivial(("irq", min(o[1], 3), e < cur[0], e % 1326 == 0, e % 51 == 0))
+            elif o[1] >= 1 and nxt == decomp(nxt[0]) and nxt[0] < H:
+                # e.g. the boot state: next_time is a frame, so one interrupt must give a consistent pair
+                e = (nxt[0] + o[1] - 1) % H
+                if ncur != decomp(e) or nnxt != decomp((e + 1) % H):
+                    ofail(ctx, "frame interrupts from a state whose next_time is a valid frame do not give a consistent pair", case,
+                                    key="c19-run-irq", expected=dict(current_time=decomp(e), next_time=decomp((e + 1) % H)), observed=seen)
+        elif o[0] == 1:
+            fo, ta = o[1], o[2]
+            shift = (tpu + ((ta + 75) % (1 << 32))) % (1 << 32) % qbits
+            d = fo - 1 + (1 if shift < switch else 0)
+            if cur == decomp(cur[0]) and cur[0] < H and 0 <= cur[0] + d < 2 * H and fo > -(1 << 31):
+                e = (cur[0] + d) % H
+                if ncur != decomp(e) or nnxt != decomp((e + 1) % H) or ntpu != shift or extra != 0:
+                    ofail(ctx, "synchronize_tdma(fn_offset=%d, time_alignment=%d): the running time is not frame (old %+d) mod 2715648 / its successor" % (fo, ta, d),
+                                    case, key="c19-run-sync", expected=dict(current_time=decomp(e), next_time=decomp((e + 1) % H), tpu_offset=shift),
+                                    observed=dict(seen, tpu_offset=ntpu))
+                ctx.nontrivial(("sync", shift < switch, min(max(fo, -1), 3), e == H - 1, e == 0, e < cur[0], e % 1326 == 0))
+        elif o[0] in (2, 3):
+            if o[0] == 3:
+                mon = obs[pos:pos + 5]
+                pos += 5
+                sb = o[1]
+                t1 = ((sb >> 23) & 1) | ((sb >> 7) & 0x1fe) | ((sb << 9) & 0x600)
+                t2 = (sb >> 18) & 0x1f
+                t3p = ((sb >> 24) & 1) | ((sb >> 15) & 6)
+                if t2 < 26 and t3p <= 4:
+                    cand = [f for f in range(t1 * 1326, t1 * 1326 + 1326) if f % 26 == t2 and f % 51 == t3p * 10 + 1]
+                    if mon != decomp(cand[0]):
+                        ofail(ctx, "l1s_decode_sb: the decoded time is not the SCH frame (T1, T2, T3') names", dict(case, sb=sb, t1=t1, t2=t2, t3p=t3p),
+                                        key="c19-decode-sb", expected=decomp(cand[0]), observed=mon)
+                    ctx.nontrivial(("sb", t3p, t1 in (0, 2047), t2 in (0, 25)))
+                m = mon[0]
+            else:
+                m = o[1]
+            if m + sb2 < (1 << 32):
+                # whatever frame number the burst carries, the running time must be the frame SB2_LATENCY later (mod the hyperframe)
+                e = (m + sb2) % H
+                if ncur != decomp(e) or nnxt != decomp((e + 1) % H):
+                    ofail(ctx, "re-initialisation after a synchronisation burst (prim_fbsb.c l1s_sbdet_resp) with fbs.mon.time.fn = %d: the running time is not frame "
+                                    "(%d + SB2_LATENCY) mod 2715648 / its successor" % (m, m),
+                                    dict(case, site="prim_fbsb_1", mon_time_fn=m), key="c19-prim_fbsb_1-unreduced-fn",
+                                    expected=dict(current_time=decomp(e), next_time=decomp((e + 1) % H)), observed=seen)
+                ctx.nontrivial(("fbsb", o[0], e % 1326 < 2, e % 51 < 2, m + sb2 >= H))
+        cur, nxt, tpu = ncur, nnxt, ntpu
+
+
+def run_part2(ctx, gsm_shared):
+    binp, sites, problems = getattr(ctx, "c19_run", (None, [], ["gen() did not build the running-time harness"]))
+    for p in problems:
+        ctx.proof_failures.append(("call-site-coverage", p))
+        ctx.note("fail closed: " + p)
+    if binp is None:
+        return
+    consts = [int(x) for x in subprocess.run([binp, "const"], stdout=subprocess.PIPE, text=True, timeout=30).stdout.split()]
+    ctx.extra["c19_constants_as_compiled"] = dict(GSM_MAX_FN=consts[0], QBITS_PER_TDMA=consts[1], SWITCH_TIME=consts[2], SB2_LATENCY=consts[3], widths=consts[4:])
+    rng = ctx.rng
+    # ---- b. model vs real expression on samples + boundaries
+    cases = []
+    for idx, s in enumerate(sites):
+        if s["name"] not in EXPECTED_SITES:
+            continue
+        midx = EXPECTED_SITES.index(s["name"])
+        auxs = SITE_INTENT[s["name"]][1] + ([rng.below(65536), rng.below(42432)] if s["aux"] else [])
+        vs = list(range(0, 8)) + list(range(H - 8, H + 4)) + [H // 2, 4294967295, 4294967294, 4294967292, 1 << 31] + [rng.below(H) for _ in range(40 if ctx.tier == "quick" else 2000)]
+        for v in vs:
+            for aux in (auxs if s["aux"] else [0]):
+                cases.append(("w_c19_site", [midx, v, aux], idx))
+    cases += [("w_c19_site", [7, 0, 0], None), ("w_c19_site", [0, -1, 0], None), ("w_c19_site", [0, 1], None)]
+    # ---- c. l1s_decode_sb
+    for t1 in (0, 1, 1023, 2046, 2047):
+        for t2 in range(32):
+            for t3p in range(8):
+                cases.append(("w_c19_sb", [sb_word(t1, t2, t3p, (t1 + t2) % 64)], None))
+    for _ in range(300 if ctx.tier == "quick" else 20000):
+        cases.append(("w_c19_sb", [rng.below(1 << 32)], None))
+    # ---- d. histories
+    for h in sync_cases(rng, ctx.tier):
+        cases.append(("w_c19_run", h, None))
+    lines = []
+    for op, a, idx in cases:
+        if op == "w_c19_site" and idx is not None:
+            lines.append("%s %d %d %d" % (op, idx, a[1], a[2]))      # harness index of the site
+        elif op == "w_c19_site" and len(a) == 3 and a[0] == 7:
+            lines.append("%s %d %d %d" % (op, 99, a[1], a[2]))
+        else:
+            lines.append(op + " " + " ".join(map(str, a)))
+    p = subprocess.run([binp], input="\n".join(lines) + "\n", stdout=subprocess.PIPE, stderr=subprocess.PIPE, text=True, timeout=900)
+    outl = p.stdout.split("\n")
+    impl, side, j = {}, {}, 0
+    crashed = p.returncode != 0
+    for k, (op, a, idx) in enumerate(cases):
+        if j >= len(outl) or (j == len(outl) - 1 and outl[j] == ""):
+            crashed = True
+            break
+        impl[k] = [int(x) for x in outl[j].split()]
+        j += 1
+        if op == "w_c19_run":
+            side[k] = outl[j].split()[1:] if j < len(outl) else []
+            j += 1
+    if crashed:
+        k = len(impl)
+        ofail(ctx, "harness around the real sync.c stopped (sanitizer?)", dict(next_case=cases[k] if k < len(cases) else None, stderr=p.stderr[-2500:]), key="c19-harness-crash")
+    idxs = [k for k in range(len(cases)) if k in impl]
+    ctx.correspond("gsm-time-run", "GsmTime", idxs, lambda k: cases[k][0] + " " + " ".join(map(str, cases[k][1])), lambda k: impl[k],
+                   show=lambda k: dict(op=cases[k][0], args=cases[k][1]))
+    # ---- e. oracles
+    for k in idxs:
+        op, a, idx = cases[k]
+        o = impl[k]
+        if op == "w_c19_run" and o != [-999]:
+            run_oracle(ctx, a, o, consts[1:4])
+            sd = side[k]
+            if len(sd) >= 2 and int(sd[1]) > 0:
+                ofail(ctx, "frame interrupts of the real l1_sync(): a frame was skipped, repeated or announced with inconsistent components "
+                                "(op index, step, frame before, frame announced to sched_gsmtime_execute, current_time, next_time: %s)" % " ".join(sd[2:]),
+                                dict(history=a, harness_report=sd), key="c19-run-irq")
+            ctx.evaluations += int(sd[0]) if sd else 0
+        elif op == "w_c19_sb" and len(o) == 6:
+            sb = a[0]
+            if o[5] != (sb >> 2) & 0x3f:
+                ofail(ctx, "l1s_decode_sb BSIC", dict(sb=sb), key="c19-decode-sb", expected=(sb >> 2) & 0x3f, observed=o[5])
+    n = 0
+    for k in idxs:
+        if cases[k][0] == "w_c19_run" and len(cases[k][1]) > 20 and n < 2:
+            ctx.sample(dict(op="w_c19_run", history=cases[k][1], observed=impl[k][:24]))
+            n += 1
+
+    # ---- a. the real expression + the real gsm_fn2gsmtime for EVERY frame number, per call site
+    site_report = {}
+    for idx, s in enumerate(sites):
+        intent = SITE_INTENT.get(s["name"])
+        if intent is None or s["name"] == "prim_fbsb_1":
+            # unknown site: the intended offset is what the expression gives in the middle of the hyperframe
+            mid = subprocess.run([binp], input="w_c19_site %d %d 0\n" % (idx, H // 2), stdout=subprocess.PIPE, text=True, timeout=30).stdout.split()
+            kf, auxs, what = (lambda a, k=int(mid[0]) - H // 2: k), [0], (intent[2] if intent else "a fixed distance from the frame variable")
+        else:
+            kf, auxs, what = intent
+        for aux in auxs:
+            k = kf(aux)
+            out = subprocess.run([binp, "sweep", str(idx), str(k), str(aux)], stdout=subprocess.PIPE, stderr=subprocess.PIPE, text=True, timeout=300)
+            lines = out.stdout.strip().split("\n")
+            if out.returncode != 0 or not lines[-1].startswith("DONE"):
+                ofail(ctx, "harness crashed in the sweep of call site " + s["name"], dict(site=s["name"], stderr=out.stderr[-1500:]), key="c19-harness-crash")
+                continue
+            total, nbad = int(lines[-1].split()[1]), int(lines[-1].split()[2])
+            ctx.evaluations += total
+            site_report["%s aux=%d" % (s["name"], aux)] = "%d/%d frame numbers give the decomposition of (%s %+d) mod 2715648" % (total - nbad, total, s["var"], k)
+            for l in lines[:-1][:2]:
+                _, v, arg, fn, t1, t2, t3, tc = l.split()
+                v, arg = int(v), int(arg)
+                e = (v + k) % H
+                ofail(ctx, "%s:%d %s: '%s' with %s = %d hands frame number %d to the decomposition; intended: %s = frame %d"
+                                % (s["file"], s["line"], s["kind"], s["text"], s["var"], v, arg, what, e),
+                                dict(site=s["name"], file=s["file"], line=s["line"], expression=s["text"], variable=s["var"], value=v, aux=aux, total_bad_values=nbad),
+                                key="c19-%s-unreduced-fn" % s["name"], expected=decomp(e), observed=[int(fn), int(t1), int(t2), int(t3), int(tc)])
+            ctx.nontrivial(("site", s["name"], aux, nbad > 0))
+    ctx.extra["c19_call_sites"] = site_report
 
 
 def run(ctx):
@@ -121,7 +862,7 @@ def run(ctx):
                     ctx.oracle_fail("l1s_time_inc result is not the decomposition of the new FN", dict(fn=fn, delta=d), key="c19-inc", expected=exp, observed=o)
                 ctx.nontrivial(("i", min(d, 2), f2 % 26 == 0, f2 % 51 == 0, f2 % 1326 == 0, f2 < fn))
     for k in range(0, len(cases), max(1, len(cases) // 5)):
-        ctx.sample(dict(op=cases[k][0], args=cases[k][1], impl=impl[k]))
+        ctx.sample(dict(op=cases[k][0], args=cases[k][1], impl=impl[k]), limit=4)
     # complete hyperframe walk on the C implementation (both tiers: 0.1 s)
     w = subprocess.run([binp, "walk"], stdout=subprocess.PIPE, text=True, timeout=600).stdout.strip()
     ctx.extra["c_full_hyperframe_walk"] = w
@@ -138,5 +879,10 @@ def run(ctx):
             ctx.oracle_fail("fn2gsm_time deviates", dict(fn=fn), key="c19-py")
             break
     ctx.evaluations += len(range(0, H, step))
-    ctx.extra["rule"] = ("FN pool: +-3 around multiples of 26, 51, 1326, 10608 and the hyperframe end, then uniform; deltas 1, 2..60, 1325, 1326, 2715647, 2715648; "
-                         "distinct_nontrivial = distinct carry patterns (which of T2/T3/T1/hyperframe wrap at the new FN, delta class) reached")
+    # the firmware's running time and the call sites
+    run_part2(ctx, gsm_shared)
+    ctx.extra["rule"] = ("helpers: FN pool +-3 around multiples of 26, 51, 1326, 10608 and the hyperframe end, then uniform; deltas 1, 2..60, 1325, 1326, 2715647, 2715648; "
+                         "running time: histories of frame interrupts (real l1_sync, runs across the wrap), synchronize_tdma (fn_offset 0,1,2,3,26,51,52,1326,H-1,H x "
+                         "time alignments on both sides of the SWITCH_TIME branch x landing frames H-1, 0, 1, 1325, 1326), re-initialisation from frame numbers and from "
+                         "synchronisation-burst words, raw states, malformed streams; call sites: the real expression for every frame number 0..2715647; "
+                         "distinct_nontrivial = distinct carry patterns / branch x landing classes / call site x outcome reached")
